@@ -94,7 +94,10 @@ def handle (line : String) : String :=
       | 0, _, acc => acc.reverse
       | n+1, s, acc =>
         let r := Spec.randSpecs s
-        goS n r.2 (Spec.specCase r.1 :: acc)
+        let hasFn := r.1.any fun x => match x with | .func _ => true | _ => false
+        let hasTy := r.1.any fun x => match x with | .ty _ => true | _ => false
+        let c := if hasFn && hasTy && (r.2 / 65536) % 2 == 0 then Spec.specCaseTypedefFn r.1 else Spec.specCase r.1
+        goS n r.2 (c :: acc)
     let cases := goS count.toNat! (Spec.lcg (seed.toNat! + 23)) []
     "\t".intercalate (cases.map fun (t, d) => rec [t, d])
   | ["c03", "rand", seed, count, maxlen] =>
@@ -188,7 +191,7 @@ def handle (line : String) : String :=
       if !(Spec.wellFormed s (Spec.after (p ++ [.openBlock] ++ pobjs) [[]]) 0) || !depthOK s then none else
       let withProbes := s.foldl (fun (acc : List Spec.ScEv × Nat) e =>
         (acc.1 ++ [e, .probe "T" (acc.2 % 4), .probe "U" ((acc.2 + 1) % 4)], acc.2 + 1)) ([.probe "T" (i % 4), .probe "U" ((i + 2) % 4)], i)
-      some (Spec.histCaseP p params withProbes.1)
+      some (Spec.histCaseP p params withProbes.1 (Spec.funcHeads[(i / 28) % Spec.funcHeads.length]!))
     toString all.size ++ "\t" ++ "\t".intercalate (cases.map fun (t, d) => rec [t, d])
   | ["c04", "forenum", len, lo, hi] =>
     -- histories with for-init declarations (one name is enough for them), closing braces added
